@@ -268,12 +268,27 @@ private:
 
     std::optional<DFS::SectorBuffer> read_block(unsigned long lba) override
     {
-      if (lba >= sectors_.size())
+      // Find the sector by its address rather than by its position
+      // in sectors_, since if a sector could not be decoded, the
+      // sectors after it are not at their usual positions.
+      if (0 == geom_.sectors || geom_.cylinders <= 0)
 	return std::nullopt;
-      const Sector& sect(sectors_[lba]);
-      DFS::SectorBuffer buf;
-      std::copy(sect.data.begin(), sect.data.end(), buf.begin());
-      return buf;
+      if (lba / geom_.sectors >= static_cast<unsigned long>(geom_.cylinders))
+	return std::nullopt;
+      Track::SectorAddress want;
+      want.cylinder = static_cast<unsigned char>(lba / geom_.sectors);
+      want.head = static_cast<unsigned char>(side_);
+      want.record = static_cast<unsigned char>(lba % geom_.sectors);
+      for (const Sector& sect : sectors_)
+	{
+	  if (sect.address == want)
+	    {
+	      DFS::SectorBuffer buf;
+	      std::copy(sect.data.begin(), sect.data.end(), buf.begin());
+	      return buf;
+	    }
+	}
+      return std::nullopt;
     }
 
     std::string description() const override
